@@ -124,19 +124,43 @@ def typeName (oid : Nat) : Bytes :=
 
 /-! ### calendar: what `time.Time` arithmetic + `Format` print -/
 
+/-- month and day of month of day `doy` (0-based) of a year -/
+def monthDay (leap : Bool) (doy : Nat) : Nat × Nat :=
+  let l := if leap then 1 else 0
+  if doy < 31 then (1, doy + 1)
+  else if doy < 59 + l then (2, doy - 31 + 1)
+  else if doy < 90 + l then (3, doy - (59 + l) + 1)
+  else if doy < 120 + l then (4, doy - (90 + l) + 1)
+  else if doy < 151 + l then (5, doy - (120 + l) + 1)
+  else if doy < 181 + l then (6, doy - (151 + l) + 1)
+  else if doy < 212 + l then (7, doy - (181 + l) + 1)
+  else if doy < 243 + l then (8, doy - (212 + l) + 1)
+  else if doy < 273 + l then (9, doy - (243 + l) + 1)
+  else if doy < 304 + l then (10, doy - (273 + l) + 1)
+  else if doy < 334 + l then (11, doy - (304 + l) + 1)
+  else (12, doy - (334 + l) + 1)
+
+/-- (year − 1 within the era, month, day) of day `r1` (0..146096) of a 400-year era that starts on a
+January 1st: 100-, 4- and 1-year cycles, the last of each clamped (the structure of Go's `time.absDate`) -/
+def eraYMD (r1 : Nat) : Nat × Nat × Nat :=
+  let n100 := min (r1 / 36524) 3
+  let r2 := r1 - 36524 * n100
+  let n4 := r2 / 1461
+  let r3 := r2 % 1461
+  let n1 := min (r3 / 365) 3
+  let doy := r3 - 365 * n1
+  let leap := n1 == 3 && (n4 != 24 || n100 == 3)
+  let md := monthDay leap doy
+  (100 * n100 + 4 * n4 + n1, md.1, md.2)
+
 /-- civil date (year, month, day) of day number `z` counted from 1970-01-01, proleptic Gregorian,
-astronomical year numbering (year 0, negative years) as in Go's `time` package -/
+astronomical year numbering (year 0, negative years) as in Go's `time` package; eras of 400 years
+(146097 days) counted from 0001-01-01 -/
 def civilFromDays (z : Int) : Int × Nat × Nat :=
-  let z := z + 719468
-  let era := z / 146097
-  let doe := (z - era * 146097).toNat
-  let yoe := (doe - doe / 1460 + doe / 36524 - doe / 146096) / 365
-  let doy := doe - (365 * yoe + yoe / 4 - yoe / 100)
-  let mp := (5 * doy + 2) / 153
-  let d := doy - (153 * mp + 2) / 5 + 1
-  let m := if mp < 10 then mp + 3 else mp - 9
-  let y : Int := (yoe : Int) + era * 400 + (if m ≤ 2 then 1 else 0)
-  (y, m, d)
+  let n := z + 719162
+  let era := n / 146097
+  let r := eraYMD (n - era * 146097).toNat
+  (era * 400 + ((r.1 + 1 : Nat) : Int), r.2.1, r.2.2)
 
 /-- `Format("2006")`: sign, then at least four digits -/
 def fmtYear (y : Int) : Bytes := (if y < 0 then [45] else []) ++ padNat 4 y.natAbs
